@@ -135,6 +135,17 @@ theorem parse_own_source_session (h : Nat → Nat) (ops : List SOp)
     ⟨hinv_empty h _, by intro t ht; simp [Sess.empty] at ht⟩ (fun a ha => ha)
   simpa [Sess.exec, Sess.empty] using this
 
+/-- **The verdict goes with the tree** (repair ab3ba44: `Tree.err`). `Parse` returns, next to the tree, the verdict
+    the parser gave on the source THAT TREE was built from (`rej t.src`; for a tree built now, on this source). After
+    any history of registrations — of trees of accepted and of rejected sources alike — the verdict `Parse s` returns
+    is the verdict on `s`: a rejected source is rejected every time, an accepted one accepted. (Before the repair
+    the short-cut returned `nil` with a registered tree, i.e. `false` here, whatever `rej s`.) -/
+theorem parse_verdict_own_source (h : Nat → Nat) (rej : Nat → Bool) (hist : List Op) (s : Nat)
+    (htrees : ∀ o ∈ hist, o.tree.hsum = h o.tree.src)
+    (hinj : ∀ a ∈ s :: hist.map (·.tree.src), ∀ b ∈ s :: hist.map (·.tree.src), h a = h b → a = b) :
+    rej (parse h (run hist) s).src = rej s := by
+  rw [parse_own_source h hist s htrees hinj]
+
 /-! ## Non-vacuity: concrete histories -/
 
 section examples
